@@ -563,6 +563,60 @@ class Fn:
         pl = x.get("copy") or x.get("move") or x
         return self._place_expr(pl, frozenset(), depth)
 
+    def expr_at(self, x, at, depth=48):
+        """expr(x) as it stands in block `at`: a definition of the local in a block from which `at` cannot be reached takes no
+        part (followed through plain whole-local copies, discriminant reads and negations).  After jump threading the
+        definitions on the threaded-away edges are exactly such definitions."""
+        if "const" in x:
+            return self._const(x["const"])
+        pl = x.get("copy") or x.get("move") or x
+        return self._place_expr_at(pl["l"], pl["p"], at, depth, 0)
+
+    def _reaches(self, a, b):
+        c = self.__dict__.setdefault("_reach0", {})
+        if a not in c:
+            c[a] = self.reach(a)
+        return a == b or b in c[a]
+
+    def _place_expr_at(self, l, proj, at, depth, hops):
+        whole = lambda: self._place_expr({"l": l, "p": proj}, frozenset(), depth)
+        if (1 <= l <= self.nargs) or hops > 8:
+            return whole()
+        alldefs = self.defs(l)
+        if not alldefs or any(dp for (dp, b, i, kind, payload) in alldefs):
+            return whole()
+        live = [d for d in alldefs if self._reaches(d[1], at)]
+        if not live:
+            return whole()
+
+        def opnd(op, b):
+            if "const" in op:
+                return self._const(op["const"])
+            q_ = op.get("copy") or op.get("move")
+            return self._place_expr_at(q_["l"], q_["p"], b, depth - 1, hops + 1)
+        cands = []
+        for (dp, b, i, kind, payload) in live:
+            if kind == "rv" and payload["k"] == "use":
+                base = opnd(payload["a"], b)
+            elif kind == "rv" and payload["k"] == "un":
+                base = ("un", payload["op"], opnd(payload["a"], b))
+            elif kind == "rv" and payload["k"] == "discr":
+                base = ("discr", self._place_expr_at(payload["place"]["l"], payload["place"]["p"], b, depth - 1, hops + 1))
+            elif kind == "rv":
+                base = self._rvalue(payload, frozenset([l]), depth - 1, b)
+            elif kind == "call":
+                base = self._call_expr(payload, b, frozenset([l]), depth - 1)
+            else:
+                return whole()
+            cands.append(_apply_proj(base, proj, self, frozenset([l]), depth))
+        uniq = []
+        for c in cands:
+            if c not in uniq:
+                uniq.append(c)
+        if len(uniq) > 1 and NEVER in uniq:
+            uniq.remove(NEVER)
+        return uniq[0] if len(uniq) == 1 else ("phi", tuple(uniq))
+
     def root_defs(self, local):
         """Definitions (block, expr) of `local`, looking through chains of plain
         whole-local copies/moves, so that the per-edge definitions of a user
@@ -789,7 +843,7 @@ class SwitchInfo:
         self.b = b
         t = fn.term(b)
         self.t = t
-        self.discr = fn.expr(t["discr"])
+        self.discr = fn.expr_at(t["discr"], b)
         self.ty = t.get("discr_ty")
         self.edges = [(a["value"], a["target"]) for a in t["arms"]] + [("otherwise", t["otherwise"])]
         self.variants = None
